@@ -211,7 +211,7 @@ PROPERTIES = {
                          "cmd/protoc-gen-openapiv3/zz_verif_c15.go": "harness/c15/c15_params_main.go"},
                 harnesses=[dict(func="VerifC15CombineHeaders", reach=["C15/headers/decided"], quick=dict(budget=300, parts=4, flags=["-mapperm"]), thorough=dict(budget=900, parts=8, flags=["-mapperm"])),
                            dict(func="VerifC15RequestVariations", reach=["C15/request/decided"], quick=dict(budget=200, flags=["-mapperm"]), thorough=dict(budget=600, flags=["-mapperm"])),
-                           dict(func="VerifC15MockAcrossFiles", reach=["C15/mock/decided"], quick=dict(budget=100), thorough=dict(budget=300)),
+                           dict(func="VerifC15MockAcrossFiles", reach=["C15/mock/decided", "C15/mock/examples"], quick=dict(budget=100), thorough=dict(budget=300)),
                            dict(func="VerifC15ParameterSpelling", pkgpath=MOD + "/cmd/protoc-gen-openapiv3", test_pkg="./cmd/protoc-gen-openapiv3", test_pkgname="main",
                                 reach=["C15/parameters/decided"], quick=dict(budget=100), thorough=dict(budget=300))],
                 bounds_text={"quick": "CombineHeaders: 1 service + 2 method declarations with symbolic one-letter names over [abAB] (case variants included), every iteration order of every Go map ranged over (symbolic permutation, maps of 2..4 entries), two evaluations compared. "
